@@ -38,7 +38,8 @@ type Case struct {
 
 func sp(s string) *string { return &s }
 
-var valueWords = []string{"A", "ABC", "Abc", "abc ", " abc", "a", "abc", "x1", "é", "日本", "10", "-1", "p:q", "urn:x", "a.b", ";", "{", "}", "+", "'", "\"", "\\", "/* c */", "// c", "=", "*", "+5", "\\d+", "\\n", "\\t", "C:\\dir", "\\\\", "\t", "\\\""}
+var valueWords = []string{"A", "ABC", "Abc", "abc ", " abc", "a", "abc", "x1", "é", "日本", "10", "-1", "p:q", "urn:x", "a.b", ";", "{", "}", "+", "'", "\"", "\\", "/* c */", "// c", "=", "*", "+5", "\\d+", "\\n", "\\t", "C:\\dir", "\\\\", "\t", "\\\"",
+	"\u00a0", "a\u3000b", "\f", "\v", "\u2028", "\u0085", "o'clock", "k='v'"}
 
 func genValue(g *yg.G) string {
 	if g.Pick(4, "shortval") == 0 {
@@ -159,7 +160,10 @@ func genRoot(g *yg.G) *A {
 }
 
 func canUnquoted(v string) bool {
-	if v == "" || strings.ContainsAny(v, " \t\r\n;{}\"'") || strings.Contains(v, "//") || strings.Contains(v, "/*") || v == "+" {
+	// (RFC 6020 6.1.3: only blanks, tabs, line breaks, ";", "{", "}" and comment openers force quoting; an apostrophe
+	// may stand anywhere but first, where it would open a quoted string - nor right after a leading '+', which reads as a
+	// concatenation sign before a quoted string; other Unicode blanks are ordinary characters)
+	if v == "" || strings.ContainsAny(v, " \t\r\n;{}\"") || strings.HasPrefix(v, "'") || strings.HasPrefix(v, "+'") || strings.Contains(v, "//") || strings.Contains(v, "/*") || v == "+" {
 		return false
 	}
 	return true
